@@ -74,13 +74,16 @@ func (m *Machine) loadBytes(p Ptr, n int) *Term {
 	var t *Term
 	for i := 0; i < n; i++ {
 		c := p.obj.cells[p.off+i]
+		ct := c.t
 		if c.ref != nil {
-			endPath("UNSUPPORTED", "reading pointer bytes as integer at o%d+%d", p.obj.id, p.off+i)
+			// the numeric value of an address is arbitrary: model its bytes as environment nondets (one per pointer
+			// value and byte position), 8-byte aligned for objects of at least 8 bytes
+			ct = m.addrByte(c.ref, int(c.k))
 		}
 		if t == nil {
-			t = c.t
+			t = ct
 		} else {
-			t = Concat(c.t, t)
+			t = Concat(ct, t)
 		}
 	}
 	return t
@@ -457,3 +460,23 @@ func (m *Machine) zeroVal(t types.Type) Val {
 }
 
 var _ = fmt.Sprint
+
+func (m *Machine) addrByte(r *Ref, k int) *Term {
+	bs, ok := m.addrBytes[r]
+	if !ok {
+		bs = new([8]*Term)
+		m.addrBytes[r] = bs
+	}
+	if bs[k] == nil {
+		bs[k] = m.newEnvNondet(8, "addr")
+		if k == 0 {
+			if p, ok := r.v.(Ptr); ok && p.obj != nil && p.obj.size >= 8 {
+				m.assume(Eq(Bin(OBvAnd, bs[k], Const(8, 7)), Const(8, uint64(p.off&7))))
+			}
+		}
+		if k == 7 {
+			m.assume(Eq(bs[k], Const(8, 0))) // user-space addresses
+		}
+	}
+	return bs[k]
+}
